@@ -88,6 +88,30 @@ func runC14(c *Ctx) {
 				"conditions on the assignment: "+clip(strings.Join(domConds(in), " ; "), 400)+" — the saver records LastValidatorsInfoHash for every height, and the state at every height > 0 has a last validator set; any other skip condition loses it on reload")
 		}
 	}
+	// ---- fields the loader re-derives from the block store agree with what the genesis state held when it was saved ----
+	if mk := c.Fn("kai/state/cstate", "", "MakeGenesisState"); mk != nil && load != nil {
+		set := map[string]string{}
+		for _, in := range findInstrs(mk, StoreTo(`complit:kai/state/cstate\.LatestBlockState\.(LastBlockID|AppHash)$`)) {
+			a := pathOf(in.(*ssa.Store).Addr)
+			set[a[strings.LastIndex(a, ".")+1:]] = pathOf(in.(*ssa.Store).Val)
+		}
+		for _, f := range []string{"LastBlockID", "AppHash"} {
+			v, isSet := set[f]
+			zeroAtGenesis := !isSet || strings.HasPrefix(v, "alloc:complit:types.BlockID") || v == "nil" || strings.Contains(v, "const:")
+			guarded := true
+			for _, in := range findInstrs(load, StoreTo(`#0\.`+f+`$`)) {
+				dc := domConds(in)
+				if !(hasCond(dc, `^\(height (> const:0|!= const:0|>= const:1)\)=T$`) || hasCond(dc, `#0\.LastBlockHeight (> const:0|!= const:0|>= const:1)\)=T$`) || hasCond(dc, `\.Header\.Height (> const:0|!= const:0|>= const:1)\)=T$`)) {
+					guarded = false
+				}
+			}
+			// the genesis state is saved with a zero value: loading the genesis record must not replace it by the genesis
+			// block's value (and the other way round)
+			c.Check("F", fnName(load)+"/"+f+" of the genesis state is the same after a restart as on the first start", zeroAtGenesis == guarded, load.Pos(), 2,
+				fmt.Sprintf("MakeGenesisState leaves %s %s, the loader %s it from the block store at height 0 (a genesis block with a real id and application root is stored there): a node restarted before the first block holds another state than a node that was not, and rejects its block 1", f,
+					map[bool]string{true: "zero", false: "set (" + clip(v, 60) + ")"}[zeroAtGenesis], map[bool]string{true: "does not take", false: "takes"}[guarded]))
+		}
+	}
 	// ---- ToProto: like-named hashes ---------------------------------------------------------------------
 	if fn := c.Fn("kai/state/cstate", "LatestBlockState", "ToProto"); fn != nil {
 		got := map[string][]string{}
